@@ -210,6 +210,10 @@ def run_history(root: Path, hist: dict, after_session: Callable | None = None,
                                 meta_arg = obj
                             else:
                                 meta_arg = copy.deepcopy(spec["lit"])
+                                for key in spec.get("as_tuple", []):
+                                    # case descriptions travel as JSON: restore tuple-valued metadata
+                                    if key in meta_arg:
+                                        meta_arg[key] = tuple(meta_arg[key])
                         snapshot = copy.deepcopy(meta_arg)
                         bad = write.get("bad")
                         if bad:
